@@ -22,7 +22,7 @@ ASSUMPTIONS = [
     'change is judged by the three-valued eqspec (EQUAL/DIFFERENT on numbers, strings, None, dates and containers of these; '
     'UNSPEC for everything else)',
 ]
-REQUIRED = {'deliveries': 15000, 'direct': 8000, 'nested_ops': 1000, 'slot_deliveries': 100, 'queued_cb_runs': 500}
+REQUIRED = {'class_level_runs_on_an_inheriting_subclass': 100, 'deliveries': 15000, 'direct': 8000, 'nested_ops': 1000, 'slot_deliveries': 100, 'queued_cb_runs': 500}
 FEATS = {'cascade', 'queued', 'unwatch', 'rewatch', 'update', 'trigger', 'slots', 'cb_unwatch', 'twins'}
 
 _st = {}
@@ -113,6 +113,8 @@ def run_case(idx, rng, P, rep, feats=None, prop='C03'):
     else:
         feats = feats - {'twins'}
     r = dispatch.Run(param, rng, feats, idx=idx, level=level)
+    if r.inheriting_holder:
+        rep.count('class_level_runs_on_an_inheriting_subclass')
     if r.shared_pobj:
         rep.count('cases_with_shared_parameter_object')
     rep.count('class_values_changed_before_first_instance_assignment', r.class_defaults_changed)
